@@ -9,6 +9,7 @@ import (
 	"path/filepath"
 	"runtime"
 	"sort"
+	"strings"
 	"sync"
 	"sync/atomic"
 	"testing"
@@ -540,6 +541,85 @@ func runSockStreamCase(c sockStreamCase) *fail {
 	return nil
 }
 
+// --- several receivers in one process --------------------------------------------------
+//
+// Connections of one process receive at the same time (their readers yield the
+// processor in the middle of frames, as a slow link would make them). Every
+// receiver must still deliver exactly the field values of its own frames.
+
+type yieldReader struct {
+	r   *bytes.Reader
+	max int
+}
+
+func (y *yieldReader) Read(p []byte) (int, error) {
+	runtime.Gosched()
+	if len(p) > y.max {
+		p = p[:y.max]
+	}
+	return y.r.Read(p)
+}
+
+type concRecvCase struct {
+	Receivers int `json:"receivers"`
+	Frames    int `json:"frames"`
+	MaxRead   int `json:"max_read"`
+}
+
+func runConcRecvCase(c concRecvCase) *fail {
+	var mu sync.Mutex
+	var first *fail
+	var wg sync.WaitGroup
+	for g := 0; g < c.Receivers; g++ {
+		wg.Add(1)
+		go func(g int) {
+			defer wg.Done()
+			defer func() {
+				if p := recover(); p != nil {
+					mu.Lock()
+					if first == nil {
+						first = failf("decoder-panic:concurrent", "a receiver panicked while other connections of the process were receiving: %v", p)
+					}
+					mu.Unlock()
+				}
+			}()
+			var stream []byte
+			var frames [][]byte
+			for i := 0; i < c.Frames; i++ {
+				var m *refcodec.Msg
+				switch (g + i) % 3 {
+				case 0:
+					m = tSetattr(uint64(0x1000*g+i), 0x1ff, uint64(g), uint64(i)*7+uint64(g))
+				case 1:
+					m = tWrite(uint64(0x1000*g+i), uint64(i), strings.Repeat(string(rune('a'+g%26)), 1+(i*13)%90))
+				default:
+					m = tWalk(uint64(0x1000*g+i), uint64(g), fmt.Sprintf("n%d", g), fmt.Sprintf("m%d", i))
+				}
+				m.Tag = uint16(g*97 + i)
+				fr := refcodec.Encode(m)
+				frames = append(frames, fr)
+				stream = append(stream, fr...)
+			}
+			r := &yieldReader{r: bytes.NewReader(stream), max: c.MaxRead}
+			for i, want := range frames {
+				_, _, canon, kind, err := p9.VerifRecvReencode(r, 1<<20)
+				if kind != 0 || !bytes.Equal(canon, want) {
+					mu.Lock()
+					if first == nil {
+						got, _ := refcodec.DecodePrefix(canon)
+						sent, _ := refcodec.DecodeStrict(want)
+						first = failf("valid-frame-wrong-values:concurrent-receivers", "receiver %d of %d, frame %d: sent %s, delivered kind=%d %v (%v): another connection's receive or send got into this one's buffers", g, c.Receivers, i, sent, kind, got, err)
+					}
+					mu.Unlock()
+					return
+				}
+			}
+		}(g)
+	}
+	wg.Wait()
+	return first
+}
+
 var fuzzRun *evid.Run
 var fuzzRunOnce sync.Once
 
@@ -787,6 +867,7 @@ func init() {
 	replayRegistrars = append(replayRegistrars, func() {
 		registerReplay("C02/server-stream", func(c streamCase) *fail { return runStreamCase(c, nil) })
 		registerReplay("C02/socket-stream", runSockStreamCase)
+		registerReplay("C02/concurrent-receivers", runConcRecvCase)
 		registerReplay("C02/stream", func(c rawStreamCase) *fail { return checkStream(c.Data, c.Msize) })
 		registerReplay("C02/client-recv", runClientRecvCase)
 	})
@@ -889,6 +970,14 @@ func TestC02(t *testing.T) {
 		return f
 	})
 
+	for rep := 0; rep < env.Pick(48, 960)/env.NShards+1; rep++ {
+		c := concRecvCase{Receivers: 8 + (rep%4)*8, Frames: 60, MaxRead: []int{3, 7, 16, 1 << 20}[rep%4]}
+		f := runConcRecvCase(c)
+		h.Case(evid.HashJSON(c)+uint64(rep*64+env.Shard), true, "concurrent-receivers")
+		if h.report("concurrent-receivers", f, c) {
+			return
+		}
+	}
 	rapidCases(h, "socket-stream", env.PerShard(env.Pick(4000, 200000)), func(rt *rapid.T) sockStreamCase {
 		rc := genRawStream(rt)
 		c := sockStreamCase{Data: rc.Data, Msize: rc.Msize}
